@@ -13,45 +13,20 @@ NOTE_COMMON = (
     "(tolerance 2^-40); UnytModel/Ref/*. Modelled, not verified: sympy, NumPy kernels, CPython, IEEE-754 rounding."
 )
 
-CHECKS = {
-    "C02": dict(
-        technique="Lean 4: kernel-decided obligation over the regenerated unit table against a hand-written reference + general homomorphism theorems for expression evaluation + correspondence",
-        text="Proof: (a) the unit table and prefix table are regenerated from /repo on every run and the Lean kernel decides (decide +kernel, at exact "
-             "rationals of the stored doubles) that every row lies within the tolerance class of an independent hand-written definition (SI brochure, "
-             "NIST SP 811, CODATA, IAU), has the reference dimension/offset, and that the prefix table is the SI table; (b) general theorems, for "
-             "every table and any field with lawful rational powers: a prefixed look-up is prefix x base, a table key wins over a prefix reading, the "
-             "write-back of derived entries never changes what any string resolves to, Unit(expr) computes the denotation of the expression, the "
-             "denotation is a homomorphism for product / rational power and invariant under canonicalisation, unit arithmetic keeps (scale, dimension) "
-             "in sync with the expression, and .to() multiplies by the ratio of scales. Tied to the code by the regenerated table, by dump opcodes, and by "
-             "running Unit(...) in the model and in unyt on names and generated compounds; the direct oracle recomputes every compound from its constituents.",
-        design_ref="§5 C02",
-        note=NOTE_COMMON + " Rows nmi, kt, mp, Tsun, Mearth are outside their class on the unchanged tree (known findings; literal exclusion list with a "
-             "kernel-checked counterexample theorem). `lat` has a negative scale, so the power-law theorems (positivity hypothesis) do not cover lat**q.",
-    ),
-    "C05": dict(
-        technique="Lean 4 theorems (commutativity, associativity, identity, inverse, power laws, homomorphism, equality criterion over any field with lawful rational powers) + correspondence of Unit.__mul__/__truediv__/__pow__/__eq__ with the model",
-        text="Proof: the algebraic laws of unit multiplication/division/rational powers, including the offset and logarithmic guards as explicit "
-             "refusal cases, are Lean theorems about the model of Unit.__mul__/__truediv__/__pow__/__eq__/as_coeff_unit, for every unit value over "
-             "any field whose rational-power operation satisfies the usual laws on positive elements. The model is tied to the code by running "
-             "both on thousands of unit pairs (atomic exhaustively in the thorough tier, prefixed, compound, custom registry) and comparing scale, "
-             "offset, dimension, normalised expression and refusals; the laws are also evaluated directly on the library (incl. hash equality and "
-             "simplify()/as_coeff_unit()) as the failing-input search.",
-        design_ref="§5 C05",
-        note=NOTE_COMMON + " hash congruence and simplify() are covered by the direct oracle only (no theorem yet about the canonical-form uniqueness "
-             "of sympy expressions); RPowLaws are hypotheses of the power-law theorems (proved for positive reals with Mathlib in UnytProofs/Real).",
-    ),
-    "C03": dict(
-        technique="Lean 4 theorems (affine conversion laws over any char-0 field, route agreement) + correspondence of the hand model with unyt",
-        text="Proof: identity/inverse/composition of the affine conversion rule (with the prefix-aware offset) and agreement of "
-             "in_units/to_value/convert_to_units/manual routes are Lean theorems over an arbitrary field, symbolic in every scale and "
-             "offset. The model is tied to the code by running getConversionFactor in the compiled model and in unyt on the same unit "
-             "pairs, and the laws themselves are evaluated on the real library (all routes, dtypes, EM and offset families) as the "
-             "failing-input search.",
-        design_ref="§5 C03",
-        note=NOTE_COMMON + " Theorems are over exact fields; floating-point rounding is bounded only by the harness tolerances. "
-             "The EM (CGS<->SI) branch is covered by the direct law oracle and the EM table obligation, not by the general theorem.",
-    ),
-}
+def load_checks():
+    """manifest.d/Cnn.json: {technique, text, design_ref, note_extra, [category]} — one file per
+    claimed property (so that checks can be added independently)."""
+    out = {}
+    d = os.path.join(VERIF, "manifest.d")
+    for fn in sorted(os.listdir(d)):
+        if fn.endswith(".json"):
+            c = json.load(open(os.path.join(d, fn), encoding="utf-8"))
+            c["note"] = (NOTE_COMMON + " " + c.get("note_extra", "")).strip()
+            out[fn[:-5]] = c
+    return out
+
+
+CHECKS = load_checks()
 
 PENDING = {
 }
